@@ -16,7 +16,7 @@ import gen_dump  # noqa: E402
 CLASSES = {
     'C01': {'factor_to', 'factor_from', 'std_not_unit_magnitude', 'map_keys', 'map_size'},
     'C06': {'dims_symbol', 'qtype_dims', 'qtype_dims_numeric_types'},
-    'C07': {'incoherent', 'incoherent_implemented', 'std_system_not_standard_unit', 'related_system', 'consistent_missing', 'consistent_public'},
+    'C07': {'incoherent', 'incoherent_implemented', 'incoherent_numeric', 'std_system_not_standard_unit', 'related_system', 'consistent_missing', 'consistent_public'},
     'C08': {'abbr_table_size', 'std_not_enumerator', 'map_size', 'abbr_missing', 'abbr_dup', 'abbr_public', 'stream',
             'parse_back', 'map_keys', 'system_abbr_meaning', 'extra_key', 'spelling_target', 'spelling_parse',
             'spelling_meaning', 'nonspelling'},
@@ -33,6 +33,68 @@ def dump_binary():
     return exe, us, others, qs
 
 
+BASE_TYPES = ['Time', 'Length', 'Mass', 'ElectricCurrent', 'Temperature', 'SubstanceAmount']
+
+
+def hex_frac(s):
+    from fractions import Fraction as Fr
+    s = s.strip().lower()
+    neg = s.startswith('-')
+    s = s.lstrip('+-')[2:]
+    mant, _, ex = s.partition('p')
+    ip, _, fp = mant.partition('.')
+    v = Fr(int((ip + fp) or '0', 16), 16 ** len(fp)) * Fr(2) ** int(ex or 0)
+    return -v if neg else v
+
+
+def coherence_numeric(facts, us):
+    """C07 numeric layer: the value of one consistent unit in SI, as the real conversion routine computes it in each numeric type, against
+    the product of the measured values of the system's base units (exact rational arithmetic on the measured numbers)."""
+    import gen_coherence, math
+    from fractions import Fraction as Fr
+    cons = [e for e in facts if e['e'] == 'Consistent' and e['unit'] != '#none']
+    dims = {e['type']: e['dims'] for e in facts if e['e'] == 'Enum' and e.get('kind') == 'unit'}
+    names = {e['type']: set(e['names']) for e in facts if e['e'] == 'Enum'}
+    hdr = {u['type']: u['header'] for u in us}
+    pairs = [(c['type'], c['unit']) for c in cons if c['unit'] in names.get(c['type'], ())]
+    if not pairs:
+        return []
+    srcs = [C.gen_file(n, t) for n, t in gen_coherence.sources(pairs, [hdr[t] for t, _ in pairs])]
+    exe = C.compile_cxx('coherence', srcs, flags=['-std=c++17', '-O1', '-fno-fast-math', '-ffp-contract=off', '-w'])
+    vals = {}
+    for ln in C.run([exe], timeout=120).stdout.decode().splitlines():
+        e = json.loads(ln)
+        vals[(e['type'], e['unit'], e['num'])] = (hex_frac(e['to']), hex_frac(e['from']))
+    base = {(c['system'], c['type']): c['unit'] for c in cons if c['type'] in BASE_TYPES}
+    digits = {'f': 24, 'd': 53, 'l': 64}
+    out = []
+    for c in cons:
+        T, s, u = c['type'], c['system'], c['unit']
+        d = dims.get(T)
+        if d is None or (T, u, 'd') not in vals:
+            continue
+        for num in 'fdl':
+            ok = d[6] == 0
+            want = [Fr(1), Fr(1)]
+            for i, bt in enumerate(BASE_TYPES):
+                if d[i] == 0:
+                    continue
+                bu = base.get((s, bt))
+                if bu is None or (bt, bu, num) not in vals:
+                    ok = False
+                    break
+                for k in (0, 1):
+                    want[k] *= vals[(bt, bu, num)][k] ** d[i]
+            ev = {'e': 'CoherenceNum', 'type': T, 'system': s, 'unit': u, 'num': num, 'decidable': ok, 'ulps_to': 0, 'ulps_from': 0}
+            if ok:
+                got = vals[(T, u, num)]
+                for k, key in ((0, 'ulps_to'), (1, 'ulps_from')):
+                    ulp = Fr(2) ** (math.floor(math.log2(want[k])) + 1 - digits[num]) if want[k] > 0 else Fr(1)
+                    ev[key] = min(10 ** 9, math.ceil(abs(got[k] - want[k]) / ulp))
+            out.append(ev)
+    return out
+
+
 def run(fuzz_n=0):
     """-> dict(facts, bad, tlc, nonspelling, scanned...)"""
     units.write_atoms_tla()
@@ -43,6 +105,7 @@ def run(fuzz_n=0):
         r2 = C.run([exe, 'fuzz', str(C.SEED), str(fuzz_n)], timeout=600)
         lines += r2.stdout.decode('utf-8', errors='replace').splitlines()
     facts, ns = units.build_facts(lines, us, others)
+    facts += coherence_numeric(facts, us)
     wd = C.work_dir('units')
     fp = C.write_ndjson(os.path.join(wd, 'facts.ndjson'), facts)
     outp = os.path.join(wd, 'bad.json')
